@@ -3,8 +3,6 @@
 package agg
 
 import (
-	"net/netip"
-
 	"github.com/brimdata/super"
 	"github.com/brimdata/super/internal/verif"
 	"github.com/brimdata/super/zcode"
@@ -25,7 +23,8 @@ func v10eValue(zctx *zed.Context, k int) zed.Value {
 	case 3:
 		return zed.NewString("s")
 	case 4:
-		return zed.NewIP(netip.AddrFrom4([4]byte{10, 0, 0, 1}))
+		// (built from its bytes: the engine does not interpret the init of net/netip)
+		return zed.NewValue(zed.TypeIP, []byte{10, 0, 0, 1})
 	}
 	typ := zctx.MustLookupTypeRecord([]zed.Field{zed.NewField("a", zed.TypeInt64)})
 	return zed.NewValue(typ, zcode.Append(nil, zed.EncodeInt(1)))
@@ -122,7 +121,7 @@ func v10eFusePartials(n int, ordered bool) {
 	comb := newFuse()
 	for l := 0; l < 2; l++ {
 		if cnt[l] == 0 {
-			// a group-by row exists only once its leg has seen a value of the group
+			// (the null partial of an empty leg is the subject of O7b)
 			continue
 		}
 		p := legs[l].ResultAsPartial(zctx)
@@ -163,7 +162,7 @@ func v10eFusePartials(n int, ordered bool) {
 
 // verif:desc C10-O7 the fuse aggregate composes through partial results: real agg.fuse (Consume, ResultAsPartial = Result, ConsumeAsPartial, Result; Schema.Mixin/merge incl. the union+union and union+member branches, mergeAllRecords, Context.LookupTypeValue/LookupByValue/LookupTypeUnion) over 3 or 4 input values of pairwise DIFFERENT types, split over two legs in every way; each non-empty leg's partial (a type value, a union type as soon as the leg saw two types) is handed to a combiner.  Asserted: every partial and the composed result are type values; each leg's partial has every type of its leg, the composed type has EVERY input type as a member (no member of either union is lost when two unions are merged), is well formed, and equals the type of the direct evaluation up to union member order.
 // verif:bounds 3 values: every ordered selection of 3 different types of {int64, float64, bool, string, ip, {a:int64}} (120) x every assignment to 2 legs (8); 4 values: every selection of 4 of the 6 types in pool order (15) x every assignment to 2 legs (16, of which 6 merge a 2-member union with a 2-member union); all concrete (types are pointer structures): the check enumerates, the solver has nothing to decide
-// verif:outside equal types consumed twice; null values; two or more record types (C20-O1 covers record merging); more than two legs; a leg that saw no value contributes no partial (group-by creates a row on the first value)
+// verif:outside equal types consumed twice; null values; two or more record types (C20-O1 covers record merging); more than two legs; the null partial of a leg that saw no value (skipped here: see O7b_fuse_null_partial)
 func VerifH_C10_O7_fuse_partials() {
 	if verif.Choose("n", 2) == 0 {
 		v10eFusePartials(3, true)
@@ -178,6 +177,61 @@ func VerifH_C10_O7_fuse_partials() {
 // verif:tier thorough
 func VerifH_C10_O7_fuse_partials4() {
 	v10eFusePartials(4, true)
+}
+
+// verif:desc C10-O7b a leg whose row saw no value of the aggregate's argument (fuse(x) over records of the group that lack x, or all filtered by "where"): its fuse state is empty, ResultAsPartial is the null type value <null(type)>, which group-by hands to the combiner like any partial (spillTable/readSpills, partials-in).  Asserted: the combiner does not panic, and its Result is the type value of the direct evaluation over the other leg's values (a leg without values contributes nothing).
+// verif:bounds 1..2 values of different types of the pool in one leg, none in the other; the null partial is consumed first or last
+// verif:outside as fuse_partials
+func VerifH_C10_O7b_fuse_null_partial() {
+	zctx := zed.NewContext()
+	n := 1 + verif.Choose("n", 2)
+	picks := v10ePick(n, true)
+	full, direct := newFuse(), newFuse()
+	for _, k := range picks {
+		full.Consume(v10eValue(zctx, k))
+		direct.Consume(v10eValue(zctx, k))
+	}
+	empty := newFuse()
+	pe := empty.ResultAsPartial(zctx)
+	verif.Assert(pe.Type() == zed.TypeType && pe.IsNull(), "fuse/empty-partial-is-null-type-value")
+	pf := full.ResultAsPartial(zctx)
+	comb := newFuse()
+	if verif.Choose("null-first", 2) == 1 {
+		comb.ConsumeAsPartial(pe)
+		comb.ConsumeAsPartial(pf)
+	} else {
+		comb.ConsumeAsPartial(pf)
+		comb.ConsumeAsPartial(pe)
+	}
+	var cres zed.Value
+	panicked := func() (p bool) {
+		defer func() {
+			if recover() != nil {
+				p = true
+			}
+		}()
+		cres = comb.Result(zctx)
+		return false
+	}()
+	verif.Assert(!panicked, "fuse/null-partial-composes")
+	if panicked {
+		return
+	}
+	dres := direct.Result(zctx)
+	verif.Assert(cres.Type() == zed.TypeType && vSameBytes(cres.Bytes(), dres.Bytes()), "fuse/null-partial-is-neutral")
+	verif.Reach("end")
+}
+
+func vSameBytes(a, b zcode.Bytes) bool {
+	if (a == nil) != (b == nil) || len(a) != len(b) {
+		return false
+	}
+	for i := range a {
+		if a[i] != b[i] {
+			return false
+		}
+	}
+	return true
 }
 
 // ---------------------------------------------------------------------------
